@@ -464,9 +464,13 @@ func (c *FnCtx) specQuant(env *Env, q string, x *ast.CallExpr) Val {
 	}
 	c.facts = append(c.facts[:nf], keep...)
 	g := and(guards...)
+	// typing facts of the memory cells read under the quantifier (ranges of stored integers,
+	// allocation bounds of stored pointers) are assumptions about well-typed memory; they are
+	// dropped here rather than quantified: sound (fewer assumptions) and much cheaper for the solvers
+	_ = inner
 	var t string
 	if q == "forall" {
-		t = fmt.Sprintf("(forall (%s) %s)", strings.Join(binders, " "), implies(and(g, and(inner...)), b.T))
+		t = fmt.Sprintf("(forall (%s) %s)", strings.Join(binders, " "), implies(g, b.T))
 	} else {
 		t = fmt.Sprintf("(exists (%s) %s)", strings.Join(binders, " "), and(g, b.T))
 	}
@@ -519,9 +523,14 @@ func (c *FnCtx) specFnCall(env *Env, sf *SpecFn, x *ast.CallExpr) Val {
 
 // specRecCall: recursive spec functions become define-fun-rec over their (pure) parameters.
 func (c *FnCtx) specRecCall(env *Env, sf *SpecFn, args []Val, rt types.Type, tenv *Env) Val {
+	// Recursive spec functions become define-fun-rec.  The heap cells the body reads are
+	// passed as extra array parameters (discovered by a first evaluation of the body), so
+	// the function denotes a value of the state it is applied in (current, old, loop head…).
 	name := "sf_" + sf.Name
-	if !c.declSet[name] && !c.recFns[name] {
-		c.recFns[name] = true
+	info := c.recInfos[name]
+	if info == nil {
+		info = &recInfo{prefix: "hp!"}
+		c.recInfos[name] = info
 		nb := map[string]Val{}
 		var ps []string
 		for i, p := range sf.Params {
@@ -530,18 +539,40 @@ func (c *FnCtx) specRecCall(env *Env, sf *SpecFn, args []Val, rt types.Type, ten
 			ps = append(ps, fmt.Sprintf("(%s %s)", pn, c.sortOf(pt)))
 			nb[p] = Val{T: pn, Typ: pt}
 		}
-		benv := &Env{st: &State{pc: "true", vars: map[types.Object]Val{}, heap: map[string]string{}, epoch: -2, alloc: "0"}, spec: true, bound: nb, spkg: tenv.spkg}
-		nf := len(c.facts)
-		// reserve the declaration slot so that helper declarations made while evaluating the body come first
-		body := c.eval(benv, sf.Body)
-		c.facts = c.facts[:nf]
-		c.declare(name, fmt.Sprintf("(define-fun-rec %s (%s) %s %s)", name, strings.Join(ps, " "), c.sortOf(rt), body.T))
+		mk := func() string {
+			benv := &Env{st: &State{pc: "true", vars: map[types.Object]Val{}, heap: map[string]string{}, epoch: -2, alloc: "0", hparam: info}, spec: true, bound: nb, spkg: tenv.spkg}
+			nf := len(c.facts)
+			body := c.eval(benv, sf.Body)
+			c.facts = c.facts[:nf]
+			return body.T
+		}
+		mk() // discovery pass: which heap cells does the body read?
+		info.final = true
+		body := mk()
+		for i, k := range info.keys {
+			ps = append(ps, fmt.Sprintf("(%s %s)", info.prefix+sanitize(k), info.sorts[i]))
+		}
+		c.declare(name, fmt.Sprintf("(define-fun-rec %s (%s) %s %s)", name, strings.Join(ps, " "), c.sortOf(rt), body))
+		info.defined = true
 	}
 	var as []string
 	for _, a := range args {
 		as = append(as, a.T)
 	}
+	if info.final {
+		for i, k := range info.keys {
+			as = append(as, c.heapGet(env.st, k, info.sorts[i], c.heapType[k]))
+		}
+	}
 	return Val{T: app(name, as...), Typ: rt}
+}
+
+type recInfo struct {
+	prefix  string
+	keys    []string
+	sorts   []string
+	final   bool
+	defined bool
 }
 
 // specGoCall evaluates a call to a real Go function inside a specification by
